@@ -14,6 +14,7 @@
 (*  nil asg mul add - cmp and or      and the invalid / special ones       *)
 (*  bad (illegal character)  badstr (unterminated string)                  *)
 (*  escstr (string with an invalid escape: lexes, must be refused)         *)
+(*  dqstr (string holding its own quote doubled: one token, must be refused)*)
 (*  bigint (integer beyond int64: lexes, must be refused)                  *)
 (*  wideint (fits int64 but not int32: fine as operand, refused as salience)*)
 (*  samename (an identifier equal to the first rule's name)                *)
@@ -22,9 +23,9 @@ EXTENDS Integers, Sequences, FiniteSets, TLC, Json
 
 Kinds == {"rule", "name", "str", "salience", "int", "float", "bool", "nil", "{", "}", "when", "then", ";",
           "asg", "(", ")", "[", "]", ".", ",", "!", "mul", "add", "-", "cmp", "and", "or",
-          "bad", "badstr", "escstr", "bigint", "wideint", "samename"}
+          "bad", "badstr", "escstr", "dqstr", "bigint", "wideint", "samename"}
 \* what the parser sees: the special kinds are ordinary tokens grammatically
-Gram(k) == CASE k \in {"escstr"} -> "str" [] k \in {"bigint", "wideint"} -> "int" [] k = "samename" -> "name" [] OTHER -> k
+Gram(k) == CASE k \in {"escstr", "dqstr"} -> "str" [] k \in {"bigint", "wideint"} -> "int" [] k = "samename" -> "name" [] OTHER -> k
 G(t) == [i \in DOMAIN t |-> Gram(t[i])]
 
 At(t, i) == IF i >= 1 /\ i <= Len(t) THEN t[i] ELSE "EOF"
@@ -106,7 +107,7 @@ RECURSIVE Grl(_, _)
 Grl(t, i) == IF i = Len(t) + 1 THEN TRUE ELSE LET j == RuleEntry(t, i) IN IF j = 0 THEN FALSE ELSE Grl(t, j)
 
 Lexes(t) == \A i \in DOMAIN t : t[i] \notin {"bad", "badstr"}
-LiteralsValid(t) == \A i \in DOMAIN t : t[i] \notin {"escstr", "bigint"}
+LiteralsValid(t) == \A i \in DOMAIN t : t[i] \notin {"escstr", "dqstr", "bigint"}
 SalienceInRange(t) == LET hs == Headers(G(t), 1) IN \A k \in DOMAIN hs : hs[k].sal \in {1, -1} => t[hs[k].salAt] = "int"
 NamesDistinct(t) == LET hs == Headers(G(t), 1) IN \A k \in DOMAIN hs : k > 1 => t[hs[k].nameAt] # "samename"
 Grammatical(t) == Lexes(t) /\ Grl(G(t), 1)
